@@ -9,7 +9,6 @@ use crate::{
     CompilationError, XStaticFunction,
 };
 
-use num_integer::binomial;
 use num_traits::{One, Pow, Signed, ToPrimitive, Zero};
 
 use rc::Rc;
@@ -425,6 +424,19 @@ pub(crate) fn add_int_permutation<W, R, T>(
     )
 }
 
+/// n choose k, or None if an intermediate value does not fit 128 bits
+fn checked_binomial(n: usize, k: usize) -> Option<u128> {
+    if k > n {
+        return Some(0);
+    }
+    let k = k.min(n - k);
+    let mut ret = 1u128;
+    for d in 1..=k {
+        ret = ret.checked_mul((n - k + d) as u128)? / d as u128;
+    }
+    Some(ret)
+}
+
 pub(crate) fn add_int_combination<W, R, T>(
     scope: &mut RootCompilationScope<W, R, T>,
 ) -> Result<(), CompilationError> {
@@ -450,25 +462,27 @@ pub(crate) fn add_int_combination<W, R, T>(
                 }
                 return Ok(manage_native!(XSequence::<W, R, T>::Empty, rt));
             }
-            let mut s_cutoff = binomial(n-1,k-1);
-            let total = s_cutoff*n/k;
+            // the counts are kept in 128 bits: once the total fits a usize no intermediate product can overflow
+            let Some(mut s_cutoff) = checked_binomial(n-1,k-1) else { return xerr(ManagedXError::new("n out of bounds", rt)?); };
+            let Some(total) = s_cutoff.checked_mul(n as u128).map(|t| t / k as u128).filter(|t| *t <= usize::MAX as u128) else { return xerr(ManagedXError::new("n out of bounds", rt)?); };
+            let (n, mut i) = (n as u128, i as u128);
             if i >= total{
                 return xerr(ManagedXError::new("i too large", rt)?);
             }
-            let mut s = 0;
+            let mut s = 0u128;
             rt.can_allocate(k)?;
             let mut ret = Vec::with_capacity(k);
             while k > 0{
                 if i < s_cutoff{
-                    ret.push(s);
+                    ret.push(s as usize);
                     if k > 1{
-                        s_cutoff = s_cutoff*(k-1)/(n-s-1);
+                        s_cutoff = s_cutoff*(k as u128-1)/(n-s-1);
                     }
                     k -= 1;
                     s+=1;
                 } else {
                     i -= s_cutoff;
-                    s_cutoff = s_cutoff*(n-s-k)/(n-s-1);
+                    s_cutoff = s_cutoff*(n-s-k as u128)/(n-s-1);
                     s+=1;
                 }
             }
@@ -503,24 +517,26 @@ pub(crate) fn add_int_combination_with_replacement<W, R, T>(
                 }
                 return Ok(manage_native!(XSequence::<W, R, T>::Empty, rt));
             }
-            let mut s_cutoff = binomial(n+k-2,k-1);
-            let total = (s_cutoff*(n+k-1))/k;
+            // the counts are kept in 128 bits: once the total fits a usize no intermediate product can overflow
+            let Some(mut s_cutoff) = n.checked_add(k-1).and_then(|m| checked_binomial(m-1,k-1)) else { return xerr(ManagedXError::new("n out of bounds", rt)?); };
+            let Some(total) = s_cutoff.checked_mul((n+k-1) as u128).map(|t| t / k as u128).filter(|t| *t <= usize::MAX as u128) else { return xerr(ManagedXError::new("n out of bounds", rt)?); };
+            let (n, mut i) = (n as u128, i as u128);
             if i >= total{
                 return xerr(ManagedXError::new("i too large", rt)?);
             }
-            let mut s = 0;
+            let mut s = 0u128;
             rt.can_allocate(k)?;
             let mut ret = Vec::with_capacity(k);
             while k > 0{
                 if i < s_cutoff{
-                    ret.push(s);
+                    ret.push(s as usize);
                     if k > 1{
-                        s_cutoff = (s_cutoff*(k-1))/(k+n-s-2);
+                        s_cutoff = (s_cutoff*(k as u128-1))/(k as u128+n-s-2);
                     }
                     k -= 1;
                 } else {
                     i -= s_cutoff;
-                    s_cutoff = (s_cutoff*(n-s-1))/(k+n-s-2);
+                    s_cutoff = (s_cutoff*(n-s-1))/(k as u128+n-s-2);
                     s+=1;
                 }
             }
